@@ -1,5 +1,11 @@
 """C17 -- combinators claim success only at a fixed point; couplers compose as documented.
 
+H17 (spellings and boundary values): the specification's values are abstract (opaque vector ids, small integers); the replay
+writes every abstract case in one of several concrete spellings chosen by a deterministic rotation (see LATVALS / *_ROT and
+class Spell), and the specification's catalogues were extended by the boundary cases: no member / no penalty, 5..12 members,
+maxiter 0 / 10 / 12, omitted coupler functions, negative / zero / positive table values in tiny, denormal and huge units,
+k=None, iteration n with multiplier k*h^n.  ck.extra lists how often every spelling was used.
+
 Specifications: specs/cons/Combinators.tla (and_/or_/not_ as loops, members = arbitrary functions on a
 finite domain, randomisation = nondeterministic action, success rule as-is / demanded),
 specs/cons/Couplers.tla (inner/outer/additive(+proxies) and the penalty combinators as table algebra).
@@ -51,9 +57,89 @@ class Lattice(object):
         return self.index[tuple(out)]
 
 
+# =========================================================================================
+# spellings (H17): the specification sees the vectors as opaque ids, so one abstract run can be concretised in many ways.
+# The same scenario is replayed with a value set, a container / number type for the input vector, for what the members
+# return and for maxiter chosen by a deterministic rotation over the scenario number.
+# =========================================================================================
+LATVALS = {                                   # the three abstract domain values as concrete numbers
+    "012": (0, 1, 2),                         # (the original enumeration)
+    "neg": (-1, 0, 1),                        # negative values; 0 in the middle (spelled 0, 0.0, -0.0)
+    "half": (0, 0.5, 1),                      # integral start points whose images are not integral (int-dtype truncation)
+    "tiny": (0, 5e-324, 1e-9),                # tiny but not zero: an equality test with a tolerance conflates them
+    "huge": (1e10, 1e10 + 1e-5, 1e300),       # huge, and two huge values that differ far below 1e-8 relative
+    "dec": (0.123456789, 0.1234567891, 0.12345678912345678),    # differences beyond the 8th decimal
+}
+LAT_ROT = ("012", "neg", "half", "012", "tiny", "huge", "012", "dec")
+XIN_ROT = ("list_float", "np_f64", "list_int", "list_float", "np_i64", "list_np", "np_f32")      # and_/or_
+XIN_ROT_NOT = ("list_float", "list_int", "list_np", "list_float", "negzero")                     # not_ compares `c(x) != x`: lists only
+RET_ROT = ("list_float", "negzero", "list_int", "np_f64", "list_float", "list_np", "np_i64", "np_f32", "list_float")
+MI_ROT = ("int", "np_i64", "int", "np_i32", "int")
+SENT_ROT = ("none", "explicit_none", "onexit_only", "onfail_only")
+_F32OK = {}
+
+
+def spell_vec(vals, how, salt=0):
+    """the float vector `vals` written as `how`; returns (object, the spelling really used)"""
+    import numpy
+    vals = [float(v) for v in vals]
+    integral = all(v == int(v) and abs(v) < 2.0 ** 53 for v in vals)
+    if how in ("np_i64", "list_npi") and not integral:
+        how = "np_f64" if how == "np_i64" else "list_np"
+    if how == "np_f32":
+        with numpy.errstate(all="ignore"):
+            if not all(float(numpy.float32(v)) == v for v in vals):
+                how = "np_f64"
+    if how == "list_float":
+        return vals, how
+    if how == "negzero":                       # every (salt-selected) zero written -0.0
+        return [(-0.0 if v == 0.0 and (k + salt) % 2 == 0 else v) for k, v in enumerate(vals)], how
+    if how == "list_int":                      # python ints where the value is integral (a mixed list otherwise)
+        return [int(v) if v == int(v) and abs(v) < 2.0 ** 53 else v for v in vals], how
+    if how == "np_f64":
+        return numpy.array(vals, dtype=numpy.float64), how
+    if how == "np_i64":
+        return numpy.array([int(v) for v in vals], dtype=numpy.int64), how
+    if how == "np_f32":
+        return numpy.array(vals, dtype=numpy.float32), how
+    if how == "list_np":                       # a list of numpy scalars
+        return [numpy.float64(v) for v in vals], how
+    if how == "list_npi":
+        return [numpy.int64(int(v)) for v in vals], how
+    if how == "tuple":
+        return tuple(vals), how
+    raise ValueError(how)
+
+
+def spell_maxiter(mi, how):
+    import numpy
+    if mi is None or how == "int":
+        return mi
+    return {"np_i64": numpy.int64, "np_i32": numpy.int32}[how](mi)
+
+
+def spelling_of(nscen, kind, fl):
+    """the deterministic rotation: scenario number -> spelling (the flags of older scenarios keep their meaning)"""
+    xr = XIN_ROT_NOT if kind == "not" else XIN_ROT
+    sp = {"lat": LAT_ROT[nscen % len(LAT_ROT)],
+          "xin": xr[(nscen // 2) % len(xr)],
+          "ret": [RET_ROT[(nscen // 3 + 4 * i) % len(RET_ROT)] for i in range(12)],
+          "mi": MI_ROT[(nscen // 5) % len(MI_ROT)],
+          "sent2": SENT_ROT[(nscen // 7) % len(SENT_ROT)]}
+    if fl.get("as_array"):
+        sp["xin"] = "np_f64"
+    if fl.get("ret_array"):
+        sp["ret"] = ["np_f64"] * 12
+    if kind == "not":                         # not_ compares the member's result with x itself: `list != array` is elementwise
+        sp["ret"] = [r if r.startswith("list") or r == "negzero" else "list_float" for r in sp["ret"]]
+    return sp
+
+
 class Run(object):
     """one recorded execution: interning of vectors to ids, the events, the scripted random"""
-    def __init__(self, lat, kind, tables, targets, ret_array=False, inplace=False):
+    def __init__(self, lat, kind, tables, targets, ret_array=False, inplace=False, ret=None):
+        self.ret = ret                      # per member: how it writes what it returns (None: a list of floats)
+        self.used = set()                   # the spellings really used
         self.inplace = inplace              # members write the result into their argument and return it
         self.lat, self.kind, self.tables = lat, kind, tables
         self.ids = {p: i + 1 for i, p in enumerate(lat.points)}     # lattice points first
@@ -86,6 +172,13 @@ class Run(object):
             out = list(self.lat.points[T[self.lat.snap(xin)]])
             self.ev.append({"t": "call", "i": i, "a": self.vid(xin), "b": self.vid(out)})
             self.cur = xin if self.kind == "not" else out
+            if self.ret is not None:        # the same values in the spelling this member uses
+                out, how = spell_vec(out, self.ret[(i - 1) % len(self.ret)], salt=i)
+                self.used.add("ret:" + how)
+                if not self.inplace or not isinstance(x, list):
+                    return out
+                if hasattr(out, "tolist"):  # written into the argument: python numbers (a list of float32 scalars would make
+                    out = out.tolist()      # `==` a float32 comparison under numpy's weak-scalar promotion)
             if self.inplace:                # a constraint that modifies its argument in place (as generated ones do)
                 try:
                     x[:] = out
@@ -194,19 +287,31 @@ def scripted_random(mc, fake):
 
 
 def execute(mc, lat, kind, tables, maxiter, x0, targets, sentinels=True, as_array=False, ret_array=False, inplace=False,
-            warm=None):
+            warm=None, sp=None):
     """run the real combinator once; returns the Run and the returned object.  `warm`: a start point on which the SAME
-    combinator object is called first (its events are discarded): a combinator must not carry state from call to call"""
-    run = Run(lat, kind, tables, targets, ret_array=ret_array, inplace=inplace)
+    combinator object is called first (its events are discarded): a combinator must not carry state from call to call.
+    `sentinels`: True / "both", False / "none" (omitted), "explicit_none" (onexit=None, onfail=None), "onexit_only",
+    "onfail_only".  `sp`: the spelling (see spelling_of) of the input vector, the members' results and maxiter"""
+    run = Run(lat, kind, tables, targets, ret_array=ret_array, inplace=inplace, ret=sp["ret"] if sp else None)
     kw = {}
     if maxiter is not None:
-        kw["maxiter"] = maxiter
-    if sentinels:
+        kw["maxiter"] = spell_maxiter(maxiter, sp["mi"]) if sp else maxiter
+        run.used.add("maxiter:" + (sp["mi"] if sp else "int"))
+    else:
+        run.used.add("maxiter:omitted")
+    mode = {True: "both", False: "none"}.get(sentinels, sentinels)
+    if mode in ("both", "onexit_only"):
         kw["onexit"] = run.sentinel("onexit")
+    if mode in ("both", "onfail_only"):
         kw["onfail"] = run.sentinel("onfail")
+    if mode == "explicit_none":
+        kw["onexit"] = kw["onfail"] = None
     members = [run.member(i + 1) for i in range(len(tables))]
     x = [float(v) for v in x0]
-    if as_array:
+    if sp:
+        x, how = spell_vec(x, sp["xin"])
+        run.used.add("x:" + how)
+    elif as_array:
         import numpy
         x = numpy.array(x)
     with scripted_random(mc, run):
@@ -236,8 +341,9 @@ def execute(mc, lat, kind, tables, maxiter, x0, targets, sentinels=True, as_arra
 # =========================================================================================
 # scenarios for the code -> spec direction
 # =========================================================================================
-def scenarios(a):
-    """(lattice, kind, tables, maxiter, x0 point index, targets, flags) -- deterministic in the seed"""
+def scenarios(a, legacy=False):
+    """(lattice, kind, tables, maxiter, x0 point index, targets, flags) -- deterministic in the seed.
+    legacy: without the H17 blocks (boundary values of maxiter and of the member count)"""
     rng = pyrandom.Random(a.seed * 7919 + 17)
     thorough = a.tier == "thorough"
     L1 = Lattice((0, 1, 2), 1)
@@ -315,23 +421,86 @@ def scenarios(a):
         tg = [rng.choice([OFF] + list(range(9))) for _ in range(3)] if kind != "or" else [rng.randrange(nn) for _ in range(3)]
         add(L2, kind, tabs, rng.choice([1, 2, 3, 4]), rng.randrange(9), tg,
             as_array=(kind != "not" and rng.random() < 0.2), ret_array=(kind != "not" and rng.random() < 0.2))
+    if legacy:
+        return out
+    # --- H17: boundary values of the settings and of the member count (own generator: the scenarios above stay what they were)
+    rng2 = pyrandom.Random(a.seed * 104729 + 17)
+    # no member at all: and_() succeeds at once, or_() fails at once (Combinators.tla, InitWith with n = 0)
+    for kind in ("and", "or"):
+        for mi in (None, 0, 1, 3, 12):
+            for s in range(3):
+                add(L1, kind, [], mi, s, [OFF])
+            add(L2, kind, [], mi, (3 * (mi or 0) + 1) % 9, [OFF])
+    # maxiter = 0 with two members (the first sweep is unconditional; `maxiter or default` would run on)
+    pairs0 = [(t1, t2, s) for t1 in F3 for t2 in F3 for s in range(3)]
+    rng2.shuffle(pairs0)
+    for t1, t2, s in pairs0[:(len(pairs0) if thorough else 160)]:
+        add(L1, "and", (t1, t2), 0, s, [OFF])
+        add(L1, "or", (t1, t2), 0, s, [0])
+    # two-digit caps: maxiter 10 and 12 (up to 36 member calls, several sweeps of the `del x[:n]` housekeeping)
+    for _ in range(1500 if thorough else 220):
+        kind = rng2.choice(["and", "and", "or", "not"])
+        nn = 1 if kind == "not" else rng2.choice([1, 2, 2, 3])
+        tabs = [rng2.choice(F3) for _ in range(nn)]
+        add(L1, kind, tabs, rng2.choice([10, 12]), rng2.randrange(3),
+            rng2.choice(pol_val) if kind != "or" else [rng2.randrange(nn) for _ in range(4)])
+    # many members: 5 and 7 (primes), 10 and 12 (two digits, composite): window x[-(n+1)], `j % (2*n)`, randint(1, n)
+    for _ in range(900 if thorough else 140):
+        kind = rng2.choice(["and", "and", "or"])
+        nn = rng2.choice([5, 7, 10, 12])
+        fp = rng2.randrange(3)
+        style = rng2.random()
+        tabs = []
+        for _m in range(nn):
+            t = rng2.choice(F3)
+            if style < 0.75:                   # a common fixed point (success after several sweeps) ...
+                t = tuple(fp if j == fp else t[j] for j in range(3))
+            if style < 0.4 and _m != nn - 1:   # ... that only the last member leads to
+                t = tuple(j for j in range(3))
+            tabs.append(t)
+        add(L1, kind, tabs, rng2.choice([1, 2, 3]), rng2.randrange(3),
+            rng2.choice(pol_val) if kind == "and" else [rng2.randrange(nn) for _ in range(3)])
     return out
 
 
-def record_all(mc, a, ck, scen):
-    """run every scenario on the real code; returns the traces (with meta) that go to TLC"""
+_LATS = {}
+
+
+def lattice_for(name, dim):
+    if (name, dim) not in _LATS:
+        _LATS[(name, dim)] = Lattice(LATVALS[name], dim)
+    return _LATS[(name, dim)]
+
+
+def record_all(mc, a, ck, scen, spell=True, counts=None):
+    """run every scenario on the real code; returns the traces (with meta) that go to TLC.  `spell`: apply the spelling
+    rotation (False: every scenario in the original spelling -- lattice {0,1,2}, lists of floats, python int maxiter)"""
     traces = []
+    counts = {} if counts is None else counts
     for nscen, (lat, kind, tabs, mi, s, tg, fl) in enumerate(scen):
+        sp = None
+        if spell:
+            sp = spelling_of(nscen, kind, fl)
+            if "lat" in fl:                      # a scenario may pin its value set
+                sp["lat"] = fl["lat"]
+            lat = lattice_for(sp["lat"], lat.dim)
         x0 = lat.points[s]
         fl = dict(fl, inplace=(nscen % 3 == 1 and not fl.get("ret_array", False)))   # every third run: in-place members
         # every fourth run: the combinator object has already been used once, on another start point
         warm = lat.points[(s * 5 + 3) % len(lat.points)] if nscen % 4 == 2 else None
         fl["warm"] = list(warm) if warm is not None else None
+        fl["spelling"] = dict(sp, ret=sp["ret"][:max(1, len(tabs))]) if sp else None
         run, res = execute(mc, lat, kind, tabs, mi, x0, tg, True, fl.get("as_array", False), fl.get("ret_array", False),
-                           fl["inplace"], warm)
+                           fl["inplace"], warm, sp=sp)
+        for u in run.used | ({"lattice:" + sp["lat"]} if sp else set()):
+            counts[u] = counts.get(u, 0) + 1
         meta = {"kind": kind, "tables": tabs, "maxiter": mi, "x0": list(x0), "targets": tg, "dim": lat.dim,
+                "latvals": list(lat.vals),
                 "flags": fl, "vectors": [list(v) for v in run.vecs], "rawdraws": run.rawdraws[:40]}
         desc = "%s_(%s) maxiter=%s x0=%s" % (kind, ", ".join(str(t) for t in tabs), mi, list(x0))
+        if sp:
+            desc += " [values %s; x as %s, members return %s, maxiter as %s]" % (
+                list(lat.vals), sp["xin"], "/".join(sp["ret"][:max(1, len(tabs))]), sp["mi"])
         if isinstance(res, Exception):
             ck.violation("%s_:raises" % kind, dict(meta, error=repr(res)), "%s raised %r" % (desc, res))
             continue
@@ -343,16 +512,26 @@ def record_all(mc, a, ck, scen):
             continue
         for p in run.problems:
             ck.violation("%s_:unexpected-use-of-random" % kind, dict(meta, problem=p), "%s: %s" % (desc, p))
-        # the same run without sentinels returns the same vector (default onexit/onfail = None)
-        run2, res2 = execute(mc, lat, kind, tabs, mi, x0, tg, False, fl.get("as_array", False), fl.get("ret_array", False),
-                             fl["inplace"], warm)
+        # the same run with onexit / onfail omitted, None, or only one of them given returns the same vector (default = None);
+        # a sentinel that is given and whose path is taken still delivers the result
+        mode2 = sp["sent2"] if sp else "none"
+        counts["sentinels:" + mode2] = counts.get("sentinels:" + mode2, 0) + 1
+        run2, res2 = execute(mc, lat, kind, tabs, mi, x0, tg, mode2, fl.get("as_array", False), fl.get("ret_array", False),
+                             fl["inplace"], warm, sp=sp)
         try:
             same = [float(v) + 0.0 for v in res2] == [float(v) + 0.0 for v in res]
         except Exception:
             same = False
         if not same:
-            ck.violation("%s_:result-differs-without-sentinels" % kind, dict(meta, with_sentinels=list(res), without=repr(res2)),
-                         "%s: returns %r with onexit/onfail set but %r without" % (desc, list(res), res2))
+            ck.violation("%s_:result-differs-without-sentinels" % kind, dict(meta, with_sentinels=list(res), without=repr(res2), mode=mode2),
+                         "%s: returns %r with onexit/onfail set but %r with %s" % (desc, list(res), res2, mode2))
+        elif mode2 in ("onexit_only", "onfail_only"):
+            taken = run.exits[0].path
+            through = [e.path for e in run2.exits]
+            if through != ([taken] if mode2.startswith(taken) else []) or (through and res2 is not run2.exits[0]):
+                ck.violation("%s_:return-not-through-exactly-one-exit-path" % kind,
+                             dict(meta, mode=mode2, path_with_both=taken, exits=through, returned=repr(res2)),
+                             "%s with %s: the run takes the %s path, sentinels fired %s, returned %r" % (desc, mode2, taken, through, res2))
         tr = run.trace(100 if mi is None else mi, x0)
         calls = sum(1 for e in run.ev if e["t"] == "call")
         tr_meta = dict(meta, path=run.exits[0].path, ret=list(res), ndraws=run.ndraw_events, calls=calls)
@@ -390,7 +569,8 @@ def validate(ck, traces, a, label="traces"):
             for k, (tr, meta) in enumerate(chunks[ix], 1):
                 desc = "%s_ members=%s maxiter=%s x0=%s" % (meta["kind"], meta["tables"], meta["maxiter"], meta["x0"])
                 nontriv = meta["ndraws"] > 0 or meta["path"] == "onfail" or meta["calls"] > len(meta["tables"])
-                ck.case(nontrivial=nontriv, key=("tr", meta["kind"], str(meta["tables"]), meta["maxiter"], str(meta["x0"]), str(meta["targets"])))
+                ck.case(nontrivial=nontriv, key=("tr", meta["kind"], str(meta["tables"]), meta["maxiter"], str(meta["x0"]), str(meta["targets"]),
+                                                 str(meta["flags"].get("spelling"))))
                 if k in asis or k in fixed:
                     ck.trace()
                     stats["both" if (k in asis and k in fixed) else "asis_only" if k in asis else "fixed_only"] += 1
@@ -448,8 +628,10 @@ def design(ck, a, light=False):
     bad = []
     info = {}
 
-    def run(cfg, name, workers=1, expect=None, heap="2g"):
-        r = run_tlc("cons/MC_Combinators", cfg=cfg, workers=workers, deadlock=True, timeout=3000, heap=heap)
+    def tlc(cfg, workers=1, heap="2g"):
+        return run_tlc("cons/MC_Combinators", cfg=cfg, workers=workers, deadlock=True, timeout=3000, heap=heap)
+
+    def register(r, cfg, name, expect=None):
         ck.mc(r, name)
         if expect is None and r.violated:
             ck.violation("spec:" + r.violated, {"cfg": cfg, "tlc": counterexample(r.out)},
@@ -461,18 +643,31 @@ def design(ck, a, light=False):
             info[name] = {"violated": r.violated, "counterexample": counterexample(r.out)[:5000]}
         return r
 
-    # the rule the property demands: all three claims, one exit path, bounded, progress, no deadlock
-    run("MC_Comb_fixed_quick.cfg", "Combinators fixed rule, n<=2, |D|=3, all members")
-    # the rule the code uses: or_/not_ claims must hold; and_'s wrong successes are emitted
-    r = run("MC_Comb_asis_quick.cfg", "Combinators as-is rule, n<=2, |D|=3, all members")
-    bad += [p for p in r.printed if isinstance(p, dict) and p.get("kind") == "and"]
+    def run(cfg, name, workers=1, expect=None, heap="2g"):
+        return register(tlc(cfg, workers, heap), cfg, name, expect)
+
+    # (cfg, name, expected refutation) -- one TLC process each, run side by side, registered in this order
+    batch = [
+        # the rule the property demands: all three claims, one exit path, bounded, progress, no deadlock
+        ("MC_Comb_fixed_quick.cfg", "Combinators fixed rule, n<=2 (incl. no member), |D|=3, all members", None),
+        # the rule the code used to use: or_/not_ claims must hold; and_'s wrong successes are emitted
+        ("MC_Comb_asis_quick.cfg", "Combinators as-is rule, n<=2 (incl. no member), |D|=3, all members", None)]
     if not light:
-        run("MC_Comb_cex_asis.cfg", "as-is and_ counter-example", expect="ClaimAnd")
-        run("MC_Comb_cex_n1.cfg", "n+1-equal-iterates and_ counter-example", expect="ClaimAnd")
-        run("MC_Comb_cex_idem.cfg", "as-is and_ counter-example with idempotent members", expect="ClaimAnd")
-        run("MC_Comb_idem.cfg", "as-is and_, idempotent members, n<=3: wrong only via randomised iterate")
-        run("MC_Comb_live.cfg", "liveness <>Done, |D|=2")
-        run("MC_Comb_fixed_n3_quick.cfg", "Combinators fixed rule, n=3, |D|=2")
+        batch += [
+            ("MC_Comb_cex_asis.cfg", "as-is and_ counter-example", "ClaimAnd"),
+            ("MC_Comb_cex_n1.cfg", "n+1-equal-iterates and_ counter-example", "ClaimAnd"),
+            ("MC_Comb_cex_idem.cfg", "as-is and_ counter-example with idempotent members", "ClaimAnd"),
+            ("MC_Comb_idem.cfg", "as-is and_, idempotent members, n<=3: wrong only via randomised iterate", None),
+            ("MC_Comb_live.cfg", "liveness <>Done, n<=3 (incl. no member), |D|=2", None),
+            ("MC_Comb_fixed_n3_quick.cfg", "Combinators fixed rule, n=3, |D|=2", None),
+            # two-digit caps (maxiter 10 and 12: up to 36 member calls), both rules, |D|=2
+            ("MC_Comb_long_thorough.cfg" if thorough else "MC_Comb_long.cfg",
+             "Combinators maxiter 10 and 12, n<=%d, |D|=2, both rules" % (3 if thorough else 2), None)]
+    with ThreadPoolExecutor(max_workers=max(1, min(a.jobs, len(batch), 9))) as ex:
+        results = list(ex.map(lambda b: tlc(b[0]), batch))
+    for (cfg, name, expect), r in zip(batch, results):
+        register(r, cfg, name, expect)
+    bad += [p for p in results[1].printed if isinstance(p, dict) and p.get("kind") == "and"]
     if thorough:
         w = max(1, min(a.jobs, 16))
         run("MC_Comb_fixed_thorough.cfg", "Combinators fixed rule, n=3, |D|=3, all 27^3 triples", workers=w, heap="12g")
@@ -488,10 +683,11 @@ def replay_bad(ck, mc, bad, a):
     """spec -> code: the runs in which the as-is design claims success wrongly, on the real and_"""
     L1 = Lattice((0, 1, 2), 1)
     st = {"emitted": len(bad), "reproduced": 0, "not_reproduced": 0, "draw_not_realistic": 0}
-    for b in bad:
+    for nb, b in enumerate(bad):
         tabs = [list(t) for t in b["tabs"]]
         x0 = L1.points[b["x0"]]
-        run, res = execute(mc, L1, "and", tabs, b["maxiter"], x0, b["draws"] or [OFF])
+        sp = dict(spelling_of(nb, "and", {}), lat="012")      # the containers / number types rotate; the values stay {0,1,2}
+        run, res = execute(mc, L1, "and", tabs, b["maxiter"], x0, b["draws"] or [OFF], sp=sp)      # (the draws must hit them)
         got_draws = [L1.index.get(run.vecs[e["a"] - 1], None) for e in run.ev if e["t"] == "draw"]
         if got_draws[:len(b["draws"])] != b["draws"][:len(got_draws)]:
             st["draw_not_realistic"] += 1          # no randint in {-1,0,1}, random in [0,1) gives that value
@@ -519,41 +715,171 @@ def replay_bad(ck, mc, bad, a):
 # =========================================================================================
 # couplers and penalty combinators: TLC case tables replayed on mystic.coupler
 # =========================================================================================
+COUPLER_FAMS = ("couple", "nest", "pen", "penlong", "notpen", "addv")
+
+
 def coupler_tables(a):
     t = "thorough" if a.tier == "thorough" else "quick"
-    res = {}
-    for fam in ("couple", "nest", "pen", "notpen"):
-        r = run_tlc("cons/MC_Couplers", cfg="MC_Coup_%s_%s.cfg" % (fam, t), workers=1, timeout=3000, heap="4g")
-        res[fam] = r
-    res["vacuity"] = run_tlc("cons/MC_Couplers", cfg="MC_Coup_vacuity.cfg", workers=1)
-    return res
+    jobs = [(fam, "MC_Coup_%s_%s.cfg" % (fam, t)) for fam in COUPLER_FAMS] + [("vacuity", "MC_Coup_vacuity.cfg")]
+    with ThreadPoolExecutor(max_workers=max(1, min(getattr(a, "jobs", 4) or 1, len(jobs)))) as ex:
+        rs = list(ex.map(lambda j: run_tlc("cons/MC_Couplers", cfg=j[1], workers=1, timeout=3000, heap="4g"), jobs))
+    return {fam: r for (fam, _), r in zip(jobs, rs)}
 
 
-def table_fn(T, M, log=None):
-    """a callable reading table T at (x + a) % M  (a = the optional extra argument)"""
+# ---- spellings of the coupler cases (H17).  The specification computes with small integers v (table entries, indices,
+# extra arguments); the replay writes the same v as a python int / float, a numpy scalar, a one-element list or array,
+# in a unit 2^u where the specification says how the result scales (sums: degree 1; PT(t,k,.): Deg(t)).
+VAL_ROT = ("int", "float", "np_i64", "np_f32", "list1", "arr1", "np_f64", "arr1_i64")
+DEC_ROT = ("args_tuple", "kwds", "args_list", "args_tuple+kwds_empty")            # how a decorator argument d is given
+DEC0_ROT = ("omitted", "args_tuple", "none", "kwds", "empty", "args_list")       # ... when d = 0 (the table ignores a = 0)
+CALL_ROT = ("pos", "kw")                                                        # how a call argument e is given
+CALL0_ROT = ("omitted", "pos", "kw")
+FN_ROT = ("pos", "kw")                                                          # the coupler function: positional / by its name
+FN_NAME = {"inner": "inner", "inner_proxy": "inner", "outer": "outer", "outer_proxy": "outer",
+           "additive": "penalty", "additive_proxy": "penalty"}
+PINF = float("inf")
+
+
+def idx(x):
+    """the integer an index / extra argument stands for, whatever its spelling"""
+    if hasattr(x, "__len__"):
+        x = x[0]
+    return int(x)
+
+
+def num(o):
+    """the number a result stands for, whatever its spelling"""
+    if hasattr(o, "__len__"):
+        if len(o) != 1:
+            raise ValueError("result %r is not one value" % (o,))
+        o = o[0]
+    return float(o)
+
+
+class Spell(object):
+    """writes the specification's integers in a given spelling; remembers the containers it owns (a function may hand out
+    the same array on every call: the couplers must not write into it)"""
+    def __init__(self):
+        self.owned = set()
+        self.arrays = {}
+        self.used = {}
+        self.max_i64_exp = 40
+
+    def val(self, v, how, u=0, additive=False):
+        import numpy
+        if additive and how == "list1":
+            how = "arr1"                              # list + list concatenates: not a number spelling for a sum
+        if u < 0 and how in ("int", "np_i64", "arr1_i64"):
+            how = {"int": "float", "np_i64": "np_f64", "arr1_i64": "arr1"}[how]
+        if u > self.max_i64_exp and how in ("np_i64", "arr1_i64"):    # (int64 arithmetic wraps around silently: numpy, not mystic)
+            how = {"np_i64": "int", "arr1_i64": "arr1"}[how]
+        if abs(u) > 100 and how == "np_f32":
+            how = "np_f64"
+        self.used[how] = self.used.get(how, 0) + 1
+        fv = math.ldexp(float(v), u)
+        if how == "int":
+            return int(v) * 2 ** u
+        if how == "float":
+            return fv
+        if how == "np_f64":
+            return numpy.float64(fv)
+        if how == "np_f32":
+            return numpy.float32(fv)
+        if how == "np_i64":
+            return numpy.int64(int(v) * 2 ** u)
+        if how == "list1":
+            return [fv]
+        key = (v, how, u)
+        if key not in self.arrays:               # one owned array per value: handed out again and again
+            if how == "arr1":
+                o = numpy.array([fv])
+            elif how == "arr1_i64":
+                o = numpy.array([int(v) * 2 ** u], dtype=numpy.int64)
+            else:
+                raise ValueError(how)
+            self.arrays[key] = (o, o.copy())
+        self.owned.add(key)
+        return self.arrays[key][0]
+
+    def dirty(self):
+        """owned arrays handed out since the last call that were written into (they are restored)"""
+        bad = []
+        for key in self.owned:
+            o, keep = self.arrays[key]
+            if o.dtype != keep.dtype or o.shape != keep.shape or o[0] != keep[0]:
+                bad.append((repr(keep), repr(o)))
+                del self.arrays[key]
+        self.owned = set()
+        return bad
+
+
+def table_fn(T, M, log=None, how="int", sp=None, u=0, additive=False):
+    """a callable reading table T at (x + a) % M  (a = the optional extra argument); the value in spelling `how`.
+    Container spellings hand out one owned object per table entry (the same object on every call)"""
+    if sp is None or how == "int" and u == 0:
+        def f(x, a=0):
+            return T[(idx(x) + idx(a)) % M]
+        return f
+    cache = {}
+    arrays = how in ("arr1", "arr1_i64")
+
     def f(x, a=0):
-        return T[(int(x) + int(a)) % M]
+        v = T[(idx(x) + idx(a)) % M]
+        if arrays or v not in cache:             # (arrays: Spell keeps one per value and notes that it was handed out)
+            cache[v] = sp.val(v, how, u, additive)
+        return cache[v]
     return f
 
 
-def replay_couplers(ck, cp, mp, tl, corrupt=False):
-    for fam in ("couple", "nest", "pen", "notpen"):
+def replay_couplers(ck, cp, mp, tl, corrupt=False, legacy=False, mc=None):
+    """legacy: one spelling per input, as before H17 (python ints, args=(d,), positional call arguments, the families and
+    fields of the original tables only)"""
+    import numpy
+    if mc is None:
+        import mystic.constraints as mc
+    for fam in COUPLER_FAMS:
         r = tl[fam]
         ck.mc(r, "Couplers[%s]" % fam)
         if r.violated:
             ck.violation("spec:" + r.violated, {"tlc": counterexample(r.out)}, "TLC: law %s violated in Couplers.tla (%s)" % (r.violated, fam))
     if tl["vacuity"].violated != "OrderIrrelevant":
         ck.violation("spec:vacuity", {}, "TLC did not find tables for which inner and outer differ")
+    sp = Spell()
+    rot = [0]                                            # the rotation counter of the spellings
+    used = {}
+
+    def use(kind, how):
+        used[kind + ":" + how] = used.get(kind + ":" + how, 0) + 1
+        return how
+
+    turn = {}
+
+    def pick(kind, seq, k=None):
+        """the next spelling of the rotation `seq` (every rotation keeps its own turn, so each of its members comes up
+        equally often whatever the nesting of the loops around it)"""
+        st = turn.get((kind, seq))
+        if st is None:
+            st = turn[(kind, seq)] = [pyrandom.Random("%s/%d" % (kind, len(seq))), []]
+        if not st[1]:                                      # a new block: every member once, in a shuffled (seeded) order, so
+            st[1] = list(seq)                              # that rotations used together are not in lockstep
+            st[0].shuffle(st[1])
+        return use(kind, st[1].pop())
+    VAL_ROT2 = VAL_ROT + ("float",)                       # 8, 9 and 11 spellings: every combination comes up
+    VAL_ROT3 = VAL_ROT + ("int", "np_f64", "arr1")
 
     def cmp(key, detail, exp, got, what):
         ok = True
         try:
-            ok = [float(v) for v in got] == [float(v) for v in exp]
+            ok = [num(v) for v in got] == [float(v) for v in exp]
         except Exception:
             ok = False
+        dirty = sp.dirty()
         if not ok:
             ck.violation(key, dict(detail, expected=exp, got=[repr(g) for g in got] if not isinstance(got, str) else got),
                          "%s: specification says %s, mystic gives %s" % (what, exp, got))
+        if dirty:
+            ck.violation(key + ":writes-into-a-value-it-was-given", dict(detail, changed=dirty[:3]),
+                         "%s: an array returned by one of the coupled functions was modified (%s -> %s)" % (what, dirty[0][0], dirty[0][1]))
 
     def tryall(fn, xs):
         out = []
@@ -564,30 +890,91 @@ def replay_couplers(ck, cp, mp, tl, corrupt=False):
                 return "raised %r" % ex
         return out
 
+    def decorate(name, c, d, k):
+        """cp.<name>(c, <d in the spelling number k>); returns (decorator, description)"""
+        dec = getattr(cp, name)
+        how = pick("decorator-arg", DEC0_ROT if d == 0 else DEC_ROT, k)
+        kw = {"omitted": {}, "none": {"args": None, "kwds": None}, "empty": {"args": (), "kwds": {}},
+              "args_tuple": {"args": (d,)}, "args_list": {"args": [d]}, "kwds": {"kwds": {"a": d}},
+              "args_tuple+kwds_empty": {"args": (d,), "kwds": {}}}[how]
+        if pick("coupler-function", FN_ROT, k // 2) == "kw":
+            return dec(**dict(kw, **{FN_NAME[name]: c})), "%s(%s=c%s)" % (name, FN_NAME[name], "".join(", %s=%r" % kv for kv in kw.items()))
+        return dec(c, **kw), "%s(c%s)" % (name, "".join(", %s=%r" % kv for kv in kw.items()))
+
+    def caller(g, e, k):
+        how = pick("call-arg", CALL0_ROT if e == 0 else CALL_ROT, k)
+        if how == "omitted":
+            return (lambda x: g(x)), "(x)"
+        if how == "kw":
+            return (lambda x: g(x, a=e)), "(x, a=%d)" % e
+        return (lambda x: g(x, e)), "(x, %d)" % e
+
+    def xs_of(M, k, u=0):
+        how = pick("x", VAL_ROT3, k)
+        return [sp.val(x, how) for x in range(M)], how
+
     # ---- inner / outer / additive and their proxies, incl. routing of args
     cases = tl["couple"].printed
-    if corrupt and cases:
+    if corrupt is True and cases:
         cases = [dict(cases[0], inner=[[[v + 1 for v in row] for row in blk] for blk in cases[0]["inner"]])] + cases[1:]
+    if corrupt == "dflt" and cases:
+        cases = [dict(cases[0], dflt=[[v + 1 for v in row] for row in cases[0]["dflt"]])] + cases[1:]
+    addv_cases = [] if legacy else tl["addv"].printed
+    if corrupt == "addv" and addv_cases:
+        bump = lambda blk: [[[v + 1 for v in row] for row in b] for b in blk]
+        addv_cases = [dict(addv_cases[0], additive=bump(addv_cases[0]["additive"]), additive_proxy=bump(addv_cases[0]["additive_proxy"]))] + addv_cases[1:]
     for cs in cases:
         M = len(cs["cf"])
         X = list(range(M))
-        c, f = table_fn(cs["cf"], M), table_fn(cs["ff"], M)
         nontriv = cs["inner"][0][0] != cs["outer"][0][0]
         ck.case(nontrivial=nontriv, key=("couple", str(cs["cf"]), str(cs["ff"])))
         for name in ("inner", "outer", "additive", "inner_proxy", "outer_proxy", "additive_proxy"):
-            dec = getattr(cp, name)
+            add = name.startswith("additive")
+            if not legacy:                             # the value spellings: one choice per case and coupler
+                k0 = rot[0] = rot[0] + 1
+                hc, hf = pick("value", VAL_ROT, k0), pick("value", VAL_ROT2, k0 // 8 + 3)
+                c, f = table_fn(cs["cf"], M, how=hc, sp=sp, additive=add), table_fn(cs["ff"], M, how=hf, sp=sp, additive=add)
+                xs, hx = xs_of(M, k0 // 3)
             for d in (0, 1):
                 for e in (0, 1):
                     exp = cs[name][d][e]
-                    if d == 0 and e == 0:
-                        g = dec(c)(f)
-                        got = tryall(lambda x: g(x), X)
-                        cmp("coupler:%s" % name, {"c": cs["cf"], "f": cs["ff"]}, exp, got,
-                            "%s(c)(f) with c=%s f=%s on x=0..%d" % (name, cs["cf"], cs["ff"], M - 1))
-                    g = dec(c, args=(d,))(f)
-                    got = tryall(lambda x: g(x, e), X)
-                    cmp("coupler:%s-args" % name, {"c": cs["cf"], "f": cs["ff"], "args": d, "call_arg": e}, exp, got,
-                        "%s(c,args=(%d,))(f)(x,%d) with c=%s f=%s" % (name, d, e, cs["cf"], cs["ff"]))
+                    if legacy:
+                        c, f = table_fn(cs["cf"], M), table_fn(cs["ff"], M)
+                        dec = getattr(cp, name)
+                        if d == 0 and e == 0:
+                            g = dec(c)(f)
+                            got = tryall(lambda x: g(x), X)
+                            cmp("coupler:%s" % name, {"c": cs["cf"], "f": cs["ff"]}, exp, got,
+                                "%s(c)(f) with c=%s f=%s on x=0..%d" % (name, cs["cf"], cs["ff"], M - 1))
+                        g = dec(c, args=(d,))(f)
+                        got = tryall(lambda x: g(x, e), X)
+                        cmp("coupler:%s-args" % name, {"c": cs["cf"], "f": cs["ff"], "args": d, "call_arg": e}, exp, got,
+                            "%s(c,args=(%d,))(f)(x,%d) with c=%s f=%s" % (name, d, e, cs["cf"], cs["ff"]))
+                        continue
+                    k = rot[0] = rot[0] + 1
+                    dec, ddesc = decorate(name, c, d, k)
+                    g = dec(f)
+                    call, cdesc = caller(g, e, k // 5)
+                    det = {"c": cs["cf"], "f": cs["ff"], "args": d, "call_arg": e,
+                           "spelling": {"c returns": hc, "f returns": hf, "x": hx, "decorator": ddesc, "call": cdesc}}
+                    cmp("coupler:%s%s" % (name, "-args" if d or e else ""), det, exp, tryall(call, xs),
+                        "%s(f)%s with c=%s (returning %s) f=%s (returning %s), x written as %s" % (ddesc, cdesc, cs["cf"], hc, cs["ff"], hf, hx))
+            if legacy:
+                continue
+            # the coupler function omitted: identity / zero
+            k = rot[0] = rot[0] + 1
+            dec = getattr(cp, name)
+            for de in (0, 1):
+                if name.endswith("_proxy"):           # the proxies hand their own args to f
+                    g = dec(args=(de,))(f) if (k + de) % 2 else dec(kwds={"a": de})(f)
+                    call, cdesc = (lambda x: g(x)), "(args: a=%d)(f)(x)" % de
+                else:
+                    g = dec()(f)
+                    call, cdesc = caller(g, de, k // 5)
+                    cdesc = "()(f)" + cdesc
+                cmp("coupler:%s-default" % name, {"f": cs["ff"], "arg": de, "spelling": {"f returns": hf, "x": hx, "call": cdesc}},
+                    cs["dflt"][de], tryall(call, xs), "%s%s with f=%s (returning %s): f itself%s" % (
+                        name, cdesc, cs["ff"], hf, " + 0.0" if add else ""))
     if cases:
         ck.sample({"c": cases[len(cases) // 2]["cf"], "f": cases[len(cases) // 2]["ff"],
                    "inner(c)(f)": cases[len(cases) // 2]["inner"][0][0], "outer(c)(f)": cases[len(cases) // 2]["outer"][0][0]})
@@ -595,58 +982,166 @@ def replay_couplers(ck, cp, mp, tl, corrupt=False):
     for cs in tl["nest"].printed:
         M = len(cs["ff"])
         X = list(range(M))
-        c1, c2, f = table_fn(cs["c1"], M), table_fn(cs["c2"], M), table_fn(cs["ff"], M)
         ck.case(nontrivial=cs["io"] != cs["oi"], key=("nest", str(cs["c1"]), str(cs["c2"]), str(cs["ff"])))
         for name, o1, o2 in (("ii", "inner", "inner"), ("oo", "outer", "outer"), ("io", "inner", "outer"),
                              ("oi", "outer", "inner"), ("aa", "additive", "additive")):
+            k = rot[0] = rot[0] + 1
+            hs = ["int"] * 3 if legacy else [pick("value", (VAL_ROT, VAL_ROT2, VAL_ROT3)[i], k + 3 * i) for i in range(3)]
+            c1, c2, f = [table_fn(cs[q], M, how=h, sp=None if legacy else sp, additive=(name == "aa"))
+                         for q, h in zip(("c1", "c2", "ff"), hs)]
+            xs, hx = (X, "int") if legacy else xs_of(M, k // 3)
             g = getattr(cp, o1)(c1)(getattr(cp, o2)(c2)(f))
-            cmp("coupler:nest-%s-%s" % (o1, o2), {"c1": cs["c1"], "c2": cs["c2"], "f": cs["ff"]}, cs[name], tryall(lambda x: g(x), X),
-                "%s(c1)(%s(c2)(f)) with c1=%s c2=%s f=%s" % (o1, o2, cs["c1"], cs["c2"], cs["ff"]))
+            cmp("coupler:nest-%s-%s" % (o1, o2), {"c1": cs["c1"], "c2": cs["c2"], "f": cs["ff"], "spelling": {"values": hs, "x": hx}},
+                cs[name], tryall(lambda x: g(x), xs),
+                "%s(c1)(%s(c2)(f)) with c1=%s c2=%s f=%s (returning %s)" % (o1, o2, cs["c1"], cs["c2"], cs["ff"], "/".join(hs)))
+    # ---- additive over negative / zero / positive values in tiny, denormal and huge units (sums stated in units of 2^u)
+    for n, cs in enumerate(addv_cases):
+        M, u = len(cs["ff"]), cs["u"]
+        ck.case(nontrivial=any(v < 0 for v in cs["pf"] + cs["ff"]) or 0 in cs["additive"][0][0],
+                key=("addv", str(cs["pf"]), str(cs["ff"]), u))
+        for name in ("additive", "additive_proxy"):
+            for d in (0, 1):
+                for e in (0, 1):
+                    if (d + 2 * e + n + (name == "additive")) % 4:       # one argument combination per coupler and case
+                        continue
+                    k = rot[0] = rot[0] + 1
+                    hp, hf = pick("value", VAL_ROT, k), pick("value", VAL_ROT2, k // 8 + 3)
+                    pf, f = table_fn(cs["pf"], M, how=hp, sp=sp, u=u, additive=True), table_fn(cs["ff"], M, how=hf, sp=sp, u=u, additive=True)
+                    xs, hx = xs_of(M, k // 3)
+                    dec, ddesc = decorate(name, pf, d, k)
+                    call, cdesc = caller(dec(f), e, k // 5)
+                    exp = [math.ldexp(float(v), u) for v in cs[name][d][e]]
+                    cmp("coupler:%s-values" % name, {"p": cs["pf"], "f": cs["ff"], "unit": "2**%d" % u, "args": d, "call_arg": e,
+                                                     "spelling": {"p returns": hp, "f returns": hf, "x": hx, "decorator": ddesc, "call": cdesc}},
+                        exp, tryall(call, xs), "%s(f)%s with p=%s*2**%d (returning %s) f=%s*2**%d (returning %s)" % (
+                            ddesc, cdesc, cs["pf"], u, hp, cs["ff"], u, hf))
+    if not legacy and tl["addv"].printed:
+        s = tl["addv"].printed[len(tl["addv"].printed) // 3]
+        ck.sample({"additive: p": s["pf"], "f": s["ff"], "unit 2**u, u": s["u"], "f(x)+p(x) in units": s["additive"][0][0]})
     # ---- penalty and_ / or_
     ptypes = ["linear_equality", "quadratic_equality", "uniform_equality",
               "linear_inequality", "quadratic_inequality", "uniform_inequality"]
-    for cs in tl["pen"].printed:
+    PUNITS = (0, -30, 0, 33)
+    PVAL_ROT = ("int", "float", "np_f64", "penalty", "np_f32", "np_i64")
+    K_ROT = ("int", "float", "np_i64", "np_f64")
+
+    def kval(kv, how):
+        return {"int": int, "float": float, "np_i64": numpy.int64, "np_f64": numpy.float64}[how](kv)
+
+    def scaled(tab, u, deg, inf):
+        return [PINF if v == inf else math.ldexp(float(v), u * deg) for v in tab]
+
+    def member_pen(p, M, u, how):
+        if how == "penalty":                   # the member is itself a mystic penalty: linear_equality with k=1 over the table
+            return mc.with_penalty(mp.linear_equality, k=1)(table_fn(p, M, how="float", sp=sp, u=u))
+        return table_fn(p, M, how=how, sp=sp, u=u)
+
+    sp.max_i64_exp = 20                                    # the quadratic types square the value
+    for n, cs in enumerate(tl["pen"].printed + ([] if legacy else tl["penlong"].printed)):
         ps = cs["ps"]
-        M = len(ps[0])
+        M = len(cs["and"][0][0])
         X = list(range(M))
-        members = [table_fn(p, M) for p in ps]
         zero_all = [all(p[x] == 0 for p in ps) for x in X]
         zero_any = [any(p[x] == 0 for p in ps) for x in X]
         ck.case(nontrivial=len(ps) > 1 and any(zero_any) and not all(zero_all), key=("pen", str(ps)))
+        if legacy and not ps:
+            continue
+        u = 0 if legacy else PUNITS[n % len(PUNITS)]
+        hows = ["int" if legacy else pick("penalty-value", PVAL_ROT, n + i) for i in range(len(ps))]
+        members = [table_fn(p, M) if legacy else member_pen(p, M, u, h) for p, h in zip(ps, hows)]
+        inf = cs["inf"]
+        det0 = {"members": ps, "unit": "2**%d" % u, "members return": hows}
+        mdesc = "%s%s" % (ps, "" if legacy else " * 2**%d (returning %s)" % (u, "/".join(hows)))
         for name, comb in (("and", cp.and_), ("or", cp.or_)):
-            g = comb(*members)                                 # defaults: documented plain sum / minimum
-            cmp("penalty-%s_:default" % name, {"members": ps}, cs[name][0][0], tryall(lambda x: g(x), X),
-                "coupler.%s_ of member penalties %s (defaults)" % (name, ps))
+            if not ps and name == "or":
+                continue                                       # min of nothing: not defined
+            dflt = pick("default-ptype", ("omitted", "ptype=None", "k=1", "ptype=linear_equality"), 0 if legacy else n)
+            g = comb(*members, **{"omitted": {}, "ptype=None": {"ptype": None}, "k=1": {"k": 1},
+                                  "ptype=linear_equality": {"ptype": mp.linear_equality}}[dflt])   # documented plain sum / minimum
+            cmp("penalty-%s_:default" % name, dict(det0, spelling=dflt), scaled(cs[name][0][0], u, 1, inf), tryall(lambda x: g(x), X),
+                "coupler.%s_ of member penalties %s (defaults, %s)" % (name, mdesc, dflt))
+            long = len(ps) >= 10                               # the long lists: one penalty type per case (rotating)
             for j, pt in enumerate(ptypes):
+                deg = cs["deg"][j]
+                if long and j != n % 6:
+                    continue
                 for ki, exp in enumerate(cs[name][j]):
-                    g = comb(*members, ptype=getattr(mp, pt), k=ki + 1)
-                    cmp("penalty-%s_:%s" % (name, pt), {"members": ps, "ptype": pt, "k": ki + 1}, exp, tryall(lambda x: g(x), X),
-                        "coupler.%s_(ptype=%s,k=%d) of member penalties %s" % (name, pt, ki + 1, ps))
+                    hk = "int" if legacy else pick("k", K_ROT, n + j + ki)
+                    g = comb(*members, ptype=getattr(mp, pt), k=kval(ki + 1, hk))
+                    cmp("penalty-%s_:%s" % (name, pt), dict(det0, ptype=pt, k=ki + 1, k_written_as=hk), scaled(exp, u, deg, inf), tryall(lambda x: g(x), X),
+                        "coupler.%s_(ptype=%s,k=%d as %s) of member penalties %s" % (name, pt, ki + 1, hk, mdesc))
+                if legacy:
+                    continue
+                if (n + j) % 3 == 0:                           # k=None: the multiplier is the penalty type's own default
+                    g = comb(*members, ptype=getattr(mp, pt), k=None)
+                    cmp("penalty-%s_:k-none" % name, dict(det0, ptype=pt, k=None), scaled(cs[name + "dk"][j], u, deg, inf), tryall(lambda x: g(x), X),
+                        "coupler.%s_(ptype=%s,k=None) of member penalties %s" % (name, pt, mdesc))
+            if legacy:
+                continue
+            for qi, q in enumerate(cs["iter"]):                # iteration n of the combined penalty: pk = k*h**n
+                for j in ((n + qi) % 6,):
+                    pt, deg = ptypes[j], cs["deg"][j]
+                    kw = {"k": kval(q["k"], pick("k", K_ROT, n + qi))}
+                    if q["h"] != 5 or (n + qi) % 2:
+                        kw["h"] = q["h"]                       # (h = 5 is the default: written or omitted)
+                    g = comb(*members, ptype=getattr(mp, pt), **kw)
+                    if (n + qi + j) % 2:
+                        g.iter(q["n"])
+                    else:
+                        for _ in range(q["n"]):
+                            g.iter()
+                    cmp("penalty-%s_:iteration" % name, dict(det0, ptype=pt, k=q["k"], h=q["h"], iteration=q["n"]), scaled(q[name][j], u, deg, inf),
+                        tryall(lambda x: g(x), X), "coupler.%s_(ptype=%s, k=%d, h=%d) at iteration %d of member penalties %s" % (
+                            name, pt, q["k"], q["h"], q["n"], mdesc))
     if tl["pen"].printed:
         s = tl["pen"].printed[len(tl["pen"].printed) // 2]
         ck.sample({"penalties": s["ps"], "and_(default)": s["and"][0][0], "or_(default)": s["or"][0][0]})
     # ---- penalty not_
-    for cs in tl["notpen"].printed:
+    GVAL_ROT = ("int", "float", "np_f64", "negzero", "np_i64", "np_f32")
+    for n, cs in enumerate(tl["notpen"].printed):
         g = cs["g"]
         M = len(g)
         X = list(range(M))
-        cond = table_fn(g, M)
+        u = 0 if legacy else PUNITS[(n // 2) % len(PUNITS)]
+        hg = "int" if legacy else pick("condition-value", GVAL_ROT, n)
+        inf = cs.get("inf")
+        if legacy:
+            cond = table_fn(g, M)
+        elif hg == "negzero":                  # the boundary value written -0.0
+            cond = (lambda x, g=g, u=u: -0.0 if g[idx(x) % M] == 0 else math.ldexp(float(g[idx(x) % M]), u))
+        else:
+            cond = table_fn(g, M, how=hg, sp=sp, u=u)
+        det0 = {"g": g, "type": cs["t"], "unit": "2**%d" % u, "g returns": hg}
+        gdesc = "%s%s" % (g, "" if legacy else " * 2**%d (returning %s)" % (u, hg))
         if cs["t"] == "raw":
             member = cond
         else:
-            member = getattr(mp, cs["t"])(cond, k=cs["mk"])(lambda x: 0.)
-            cmp("penalty:%s" % cs["t"], {"g": g, "k": cs["mk"]}, cs["member"], tryall(lambda x: member(x), X),
-                "penalty %s(k=%d) over condition %s" % (cs["t"], cs["mk"], g))
+            if legacy or n % 2:
+                member = getattr(mp, cs["t"])(cond, k=cs["mk"])(lambda x: 0.)
+            else:
+                member = mc.with_penalty(getattr(mp, cs["t"]), k=cs["mk"])(cond)
+            cmp("penalty:%s" % cs["t"], dict(det0, k=cs["mk"]), scaled(cs["member"], u, cs.get("deg", 0), inf), tryall(lambda x: member(x), X),
+                "penalty %s(k=%d) over condition %s" % (cs["t"], cs["mk"], gdesc))
         ck.case(nontrivial=0 < len(cs["interior"]) < M, key=("notpen", str(g), cs["t"], cs["mk"]))
+        own = getattr(mp, "linear_equality" if cs["t"] == "raw" else cs["t"])
         for ki, exp in enumerate(cs["nt"]):
-            n_ = cp.not_(member, k=ki + 1)
+            how = "omitted" if legacy else pick("not_-ptype", ("omitted", "ptype=None", "ptype=<the member's own>"), n + ki)
+            kw = {"omitted": {}, "ptype=None": {"ptype": None}, "ptype=<the member's own>": {"ptype": own}}[how]
+            n_ = cp.not_(member, k=ki + 1 if legacy else kval(ki + 1, pick("k", K_ROT, n + ki)), **kw)
             got = tryall(lambda x: n_(x), X)
-            cmp("penalty-not_:%s" % cs["t"], {"g": g, "type": cs["t"], "k": ki + 1, "interior": cs["interior"]}, exp, got,
-                "coupler.not_(k=%d) of a %s penalty over condition %s (interior of the accepted region: %s)" % (ki + 1, cs["t"], g, cs["interior"]))
+            cmp("penalty-not_:%s" % cs["t"], dict(det0, k=ki + 1, interior=cs["interior"], ptype_given=how), scaled(exp, u, cs.get("ntdeg", 0), inf), got,
+                "coupler.not_(k=%d, ptype %s) of a %s penalty over condition %s (interior of the accepted region: %s)" % (
+                    ki + 1, how, cs["t"], gdesc, cs["interior"]))
             if ki == 0:
-                n0 = cp.not_(member)
-                cmp("penalty-not_:%s-default" % cs["t"], {"g": g, "type": cs["t"]}, exp, tryall(lambda x: n0(x), X),
-                    "coupler.not_ (defaults) of a %s penalty over condition %s" % (cs["t"], g))
+                n0 = cp.not_(member, **kw)
+                cmp("penalty-not_:%s-default" % cs["t"], det0, scaled(exp, u, cs.get("ntdeg", 0), inf), tryall(lambda x: n0(x), X),
+                    "coupler.not_ (defaults) of a %s penalty over condition %s" % (cs["t"], gdesc))
+        if not legacy and n % 3 == 0:
+            nn = cp.not_(member, k=None)
+            cmp("penalty-not_:k-none", det0, scaled(cs["ntdk"], u, cs["ntdeg"], inf), tryall(lambda x: nn(x), X),
+                "coupler.not_(k=None) of a %s penalty over condition %s" % (cs["t"], gdesc))
+    used.update({"value-container:" + k: v for k, v in sp.used.items()})
+    return used
 
 
 # =========================================================================================
@@ -673,7 +1168,12 @@ def observations(mc):
     return obs
 
 
-def explore(ck, mc, cp, mp, a, tl=None, light=False, parts=("design", "traces", "couplers"), only_kind=None):
+MIN_PER_SPELLING = 24          # every spelling of the rotation must occur at least that often in a run (machinery check)
+
+
+def explore(ck, mc, cp, mp, a, tl=None, light=False, parts=("design", "traces", "couplers"), only_kind=None, legacy=False):
+    """legacy: the enumeration as it was before H17 (one spelling per input; used by the self-test to show what the
+    spellings add)"""
     ck.exhaustive = False
     out = {}
     if "design" in parts:
@@ -684,10 +1184,20 @@ def explore(ck, mc, cp, mp, a, tl=None, light=False, parts=("design", "traces", 
         if bad:
             ck.sample({"as-is and_ wrong success (TLC)": {k: bad[0][k] for k in ("tabs", "x0", "maxiter", "draws", "ret", "changedby")}})
     if "traces" in parts:
-        scen = [sc for sc in scenarios(a) if only_kind in (None, sc[1])]
-        traces = record_all(mc, a, ck, scen)
+        scen = [sc for sc in scenarios(a, legacy=legacy) if only_kind in (None, sc[1])]
+        counts = {}
+        traces = record_all(mc, a, ck, scen, spell=not legacy, counts=counts)
+        if not legacy and only_kind is None:
+            expected = (["lattice:" + k for k in LATVALS] + ["x:" + k for k in set(XIN_ROT + XIN_ROT_NOT)] +
+                        ["ret:" + k for k in set(RET_ROT)] + ["maxiter:" + k for k in set(MI_ROT)] + ["sentinels:" + k for k in SENT_ROT])
+            thin = {k: counts.get(k, 0) for k in expected if counts.get(k, 0) < MIN_PER_SPELLING}
+            if thin:
+                raise RuntimeError("spelling rotation of the recorded runs is too thin: %s" % thin)
         st = validate(ck, traces, a)
-        out["traces"] = dict(st, recorded=len(traces),
+        out["traces"] = dict(st, recorded=len(traces), spellings=dict(sorted(counts.items())),
+                             no_member=sum(1 for _, m in traces if not m["tables"]),
+                             members_5_to_12=sum(1 for _, m in traces if len(m["tables"]) >= 5),
+                             maxiter_10_12=sum(1 for _, m in traces if m["maxiter"] in (10, 12)),
                              with_randomisation=sum(1 for _, m in traces if m["ndraws"] > 0),
                              onexit=sum(1 for _, m in traces if m["path"] == "onexit"),
                              onfail=sum(1 for _, m in traces if m["path"] == "onfail"))
@@ -698,7 +1208,12 @@ def explore(ck, mc, cp, mp, a, tl=None, light=False, parts=("design", "traces", 
     if "couplers" in parts:
         if tl is None:
             tl = coupler_tables(a)
-        replay_couplers(ck, cp, mp, tl)
+        used = replay_couplers(ck, cp, mp, tl, legacy=legacy, mc=mc)
+        out["couplers"] = {"spellings": dict(sorted(used.items())), "emitted": {f: len(tl[f].printed) for f in COUPLER_FAMS}}
+        if not legacy:
+            thin = {k: v for k, v in used.items() if v < MIN_PER_SPELLING}
+            if thin:
+                raise RuntimeError("spelling rotation of the coupler cases is too thin: %s" % thin)
     ck.extra["c17"] = out
     ck.assumptions = [
         "members are deterministic total functions (no exceptions; DESIGN 7/F5 behaviour is only recorded under coverage.c17.observations)",
@@ -708,7 +1223,19 @@ def explore(ck, mc, cp, mp, a, tl=None, light=False, parts=("design", "traces", 
         "penalty members are non-negative (and_/or_ zero-set claims) and penalties are at iteration 0 (pk = k)",
         "not_ of an equality-type penalty: 'interior of the accepted region' is read as the accepted region {g = 0} itself",
         "trace validation accepts a run explained by the as-is OR the demanded success rule (so a repaired and_ is not "
-        "rejected); the claims are evaluated on the returned vector in either case"]
+        "rejected); the claims are evaluated on the returned vector in either case",
+        "spellings (H17): every recorded run is written in a rotating spelling -- value set of the three abstract domain values "
+        "({0,1,2}, {-1,0,1}, {0,.5,1}, {0,5e-324,1e-9}, {1e10,1e10+1e-5,1e300}, {0.123456789..}), input vector as list of floats / "
+        "ints / numpy scalars, float64 / int64 / float32 array (not_: lists only, `c(x) != x` is elementwise on arrays), member "
+        "results as lists (floats, ints, -0.0 for 0, numpy scalars) or arrays, maxiter as int / numpy int / omitted, onexit/onfail "
+        "both, omitted, None or only one of them.  Not in the domain: tuples as vectors (list == tuple is False in python; the "
+        "code base passes lists and arrays), lists of float32 scalars (numpy compares them in single precision)",
+        "couplers (H17): table entries, indices and extra arguments are written as python int / float, numpy scalars, one-element "
+        "lists and arrays (arrays owned by the table function: the couplers must not write into them); decorator arguments as "
+        "args=(d,) / args=[d] / kwds={'a': d} / omitted / None / empty; call arguments positional / keyword / omitted; the coupler "
+        "function positional / by name / omitted (identity, 0.0).  Values in units 2^u (u = -1074, -30, 0, 33, 1000) are exact "
+        "in binary floating point: sums scale with the unit, PT(t,k,.) with 2^(u*Deg(t)) (Deg from the specification; int64 "
+        "member values only where their square fits).  or_() of no penalty (ValueError: min of nothing) is outside the domain"]
     return out
 
 
@@ -748,6 +1275,58 @@ def _loop_and(win):
                     del x[:n]
             if win is _win_failexit:
                 return onexit(x[-1][:]) if onexit is not None else x[-1]
+            return x[-1] if onfail is None else onfail(x[-1][:])
+        return lambda x: _constraint(x)
+    return and_
+
+
+def _cur_and(mode):
+    """mystic.constraints.and_ as it is now (n consecutive applications that change nothing), re-typed with one defect that
+    only shows for particular spellings / boundary values of the input (H17)"""
+    def and_(*constraints, **settings):
+        import itertools as it
+        import random as rnd
+        import numpy
+        n = len(constraints)
+        maxiter = settings.pop('maxiter', 100) * n
+        onexit = settings.pop('onexit', None)
+        onfail = settings.pop('onfail', None)
+
+        def eq(p, q):
+            if mode == "tol":                           # "almost equal" instead of equal
+                return len(p) == len(q) and all(abs(u - v) <= 1e-8 * max(1.0, abs(u)) for u, v in zip(p, q))
+            if mode == "text":                          # compares what would be printed
+                return str(p) == str(q)
+            return p == q
+
+        def _constraint(x):
+            given = x
+            x = [x.tolist() if hasattr(x, 'tolist') else x[:]]
+
+            def conv(ci):
+                ci = ci.tolist() if hasattr(ci, 'tolist') else ci
+                if mode == "intdtype":                  # the working copy inherits the dtype of the vector as given
+                    w = numpy.array(given)
+                    w[:] = ci
+                    return w.tolist()
+                return ci
+            same = 0
+            for c in constraints:
+                x.append(conv(c(x[-1][:])))
+                same = same + 1 if eq(x[-1], x[-2]) else 0
+            if same >= n and (n > 0 or mode != "nomember"):
+                return x[-1] if onexit is None else onexit(x[-1][:])
+            _constraints = it.cycle(constraints)
+            for j in range(n, maxiter):
+                x.append(conv(next(_constraints)(x[-1][:])))
+                same = same + 1 if eq(x[-1], x[-2]) else 0
+                if same >= n:
+                    return x[-1] if onexit is None else onexit(x[-1][:])
+                if x[-1] == x[-(n + 1)]:
+                    x[-1] = [(i + rnd.randint(-1, 1)) * rnd.random() for i in x[-1]]
+                    same = 0
+                if not j % (2 * n):
+                    del x[:n]
             return x[-1] if onfail is None else onfail(x[-1][:])
         return lambda x: _constraint(x)
     return and_
@@ -827,7 +1406,7 @@ def selftest(a, mc, cp, mp):
     a.tier = "quick"
     tl = coupler_tables(a)
     orig = {"mc": {k: getattr(mc, k) for k in ("and_", "or_", "not_")},
-            "cp": {k: getattr(cp, k) for k in ("additive", "inner", "and_", "or_", "not_")}}
+            "cp": {k: getattr(cp, k) for k in ("additive", "inner", "outer", "and_", "or_", "not_")}}
 
     def restore():
         for k, v in orig["mc"].items():
@@ -869,6 +1448,78 @@ def selftest(a, mc, cp, mp):
             _penalty = lambda x: not condition(x)
         return ptype(_penalty, **settings)(lambda x: 0.)
 
+    def inner_nokw(inner=lambda x: x, args=None, kwds=None):
+        args = () if args is None else args
+        kwds = {} if kwds is None else kwds
+        def dec(f):
+            def func(x, *argz, **kwdz):
+                return f(inner(x, *args, **kwds), *argz)             # keyword arguments of the call are dropped
+            return func
+        return dec
+
+    def outer_nokwds(outer=lambda x: x, args=None, kwds=None):
+        args = () if args is None else args
+        def dec(f):
+            def func(x, *argz, **kwdz):
+                return outer(f(x, *argz, **kwdz), *args)             # kwds= of the decorator is ignored
+            return func
+        return dec
+
+    def outer_zero_default(outer=None, args=None, kwds=None):
+        args = () if args is None else args
+        kwds = {} if kwds is None else kwds
+        def dec(f):
+            def func(x, *argz, **kwdz):
+                y = f(x, *argz, **kwdz)
+                return outer(y, *args, **kwds) if outer else (y or None)    # no function given: a legal 0 counts as missing
+            return func
+        return dec
+
+    def additive_inplace(penalty=lambda x: 0.0, args=None, kwds=None):
+        args = () if args is None else args
+        kwds = {} if kwds is None else kwds
+        def dec(f):
+            def func(x, *argz, **kwdz):
+                r = f(x, *argz, **kwdz)
+                r += penalty(x, *args, **kwds)                        # accumulates into what f returned
+                return r
+            return func
+        return dec
+
+    def pen_and_noh(*penalties, **settings):
+        settings.pop('h', None)                                      # the iterative multiplier is not handed on
+        return orig["cp"]["and_"](*penalties, **settings)
+
+    def pen_or_single_digit(*penalties, **settings):
+        return orig["cp"]["or_"](*penalties[:9], **settings)         # only the first nine penalties take part
+
+    def pen_not_int(penalty, **settings):
+        k = settings.setdefault('k', 1)
+        if k is None:
+            del settings['k']
+        ptype = settings.pop('ptype', None) or getattr(mp, getattr(penalty, 'ptype', 'linear_equality'))
+        condition = getattr(penalty, 'func', penalty)
+        if ptype.__name__.endswith('_inequality'):
+            _penalty = lambda x: int(0 - condition(x))               # the flipped condition as an integer
+        else:
+            _penalty = lambda x: not condition(x)
+        return ptype(_penalty, **settings)(lambda x: 0.)
+
+    # H17: defects that only particular spellings / boundary values of the inputs expose; each is also run against the
+    # one-spelling enumeration the check had before (legacy=True), which is expected to miss it
+    spelled = [
+        ("and_ keeps the integer dtype of the vector it was given", "traces:and", lambda: setattr(mc, "and_", _cur_and("intdtype"))),
+        ("and_ compares iterates with a tolerance of 1e-8", "traces:and", lambda: setattr(mc, "and_", _cur_and("tol"))),
+        ("and_ compares the printed form of the iterates", "traces:and", lambda: setattr(mc, "and_", _cur_and("text"))),
+        ("and_ of no member takes the failure path", "traces:and", lambda: setattr(mc, "and_", _cur_and("nomember"))),
+        ("inner drops keyword arguments of the call", "couplers", lambda: setattr(cp, "inner", inner_nokw)),
+        ("outer ignores kwds= of the decorator", "couplers", lambda: setattr(cp, "outer", outer_nokwds)),
+        ("outer without a function returns `y or None`", "couplers", lambda: setattr(cp, "outer", outer_zero_default)),
+        ("additive accumulates in place into the value f returned", "couplers", lambda: setattr(cp, "additive", additive_inplace)),
+        ("penalty and_ does not hand on h", "couplers", lambda: setattr(cp, "and_", pen_and_noh)),
+        ("penalty or_ looks at the first nine penalties only", "couplers", lambda: setattr(cp, "or_", pen_or_single_digit)),
+        ("penalty not_ truncates the flipped condition to an integer", "couplers", lambda: setattr(cp, "not_", pen_not_int)),
+    ]
     mutants = [
         ("and_ success test on n-1 iterates", "traces:and", lambda: setattr(mc, "and_", _loop_and(_win_nminus1))),
         ("and_ reports onexit when the cap is exhausted", "traces:and", lambda: setattr(mc, "and_", _loop_and(_win_failexit))),
@@ -894,23 +1545,37 @@ def selftest(a, mc, cp, mp):
         with contextlib.redirect_stdout(io.StringIO()):
             explore(ck, mc, cp, mp, a, tl=tl, light=True, parts=("traces", "couplers"))
         return set(ck.viol_keys)
+    def run_mutant(apply_, part, legacy=False):
+        apply_()
+        ck = fresh()
+        try:
+            with contextlib.redirect_stdout(io.StringIO()):
+                explore(ck, mc, cp, mp, a, tl=tl, light=True, parts=(part.split(":")[0],),
+                        only_kind=part.split(":")[1] if ":" in part else None, legacy=legacy)
+        except Exception as ex:
+            ck.viol_keys["mutant raised %r" % ex] = 1
+        finally:
+            restore()
+        return sorted(set(ck.viol_keys) - base)
     try:
         base = baseline_keys()                   # what the unchanged tree reports (genuine findings)
         for name, part, apply_ in mutants:
-            apply_()
-            ck = fresh()
-            buf = io.StringIO()
-            try:
-                with contextlib.redirect_stdout(buf):
-                    explore(ck, mc, cp, mp, a, tl=tl, light=True, parts=(part.split(":")[0],),
-                            only_kind=part.split(":")[1] if ":" in part else None)
-            except Exception as ex:
-                ck.viol_keys["mutant raised %r" % ex] = 1
-            finally:
-                restore()
-            new = sorted(set(ck.viol_keys) - base)
+            new = run_mutant(apply_, part)
             print("SELFTEST %s: %s (%s)" % (name, "caught" if new else "MISSED", ", ".join(new[:3]) or "no new violation class"))
             missed += 0 if new else 1
+        for name, part, apply_ in spelled:
+            new = run_mutant(apply_, part)
+            old_ = run_mutant(apply_, part, legacy=True)
+            print("SELFTEST [spellings] %s: %s (%s; the one-spelling enumeration before H17: %s)" % (
+                name, "caught" if new else "MISSED", ", ".join(new[:3]) or "no new violation class", "caught as well" if old_ else "missed"))
+            missed += 0 if new else 1
+        for what, key in (("dflt", "coupler:inner-default"), ("addv", "coupler:additive-values")):
+            ck = fresh()
+            with contextlib.redirect_stdout(io.StringIO()):
+                replay_couplers(ck, cp, mp, tl, corrupt=what, mc=mc)
+            new = sorted(set(ck.viol_keys) - base)
+            print("SELFTEST corrupted TLC expected table (%s): %s (%s)" % (what, "caught" if key in new else "MISSED", ", ".join(new[:3])))
+            missed += 0 if key in new else 1
         # a corrupted expected value from TLC
         ck = fresh()
         with contextlib.redirect_stdout(io.StringIO()):
@@ -965,8 +1630,14 @@ def replay_artefact(a, mc):
     else:
         print("table case, expected %s got %s" % (d.get("expected"), d.get("got")))
         return 0
-    lat = Lattice((0, 1, 2), dim)
-    run, res = execute(mc, lat, kind, tabs, mi, tuple(float(v) for v in x0), tg)
+    lat = Lattice(d.get("latvals", (0, 1, 2)), dim)
+    fl = d.get("flags") or {}
+    sp = fl.get("spelling")
+    if sp:
+        sp = dict(sp, ret=list(sp["ret"]) or ["list_float"])
+        print("spelling:", sp, "in-place members:", fl.get("inplace"), "warm-up call on:", fl.get("warm"))
+    run, res = execute(mc, lat, kind, tabs, mi, tuple(float(v) for v in x0), tg, True, fl.get("as_array", False),
+                       fl.get("ret_array", False), fl.get("inplace", False), fl.get("warm"), sp=sp)
     for e in run.ev:
         print("  ", e["t"], e["i"], run.vecs[e["a"] - 1] if e["t"] != "draw" or kind != "or" else e["a"],
               run.vecs[e["b"] - 1] if e["t"] == "call" else "")
